@@ -4,6 +4,8 @@ CONSTANTS
   CrashPoints = FALSE
   RollFaults = FALSE
   RollKills = FALSE
+  LogListFaults = FALSE
+  ListingDesign = "skip"
   RoomFaults = FALSE
   RollDesign = "rename"
   MaxCount = 3
